@@ -221,6 +221,53 @@ def c_tag(ctx, case):
                  f"inputs {[str(x) for x in exprs]} tagged {[str(x) for x in tagged]}")
 
 
+KF_PREWRAP = "C12-prefixed-or-scoped-pre-existing-wrapper-not-shared"
+
+
+def _entries_of(exprs, u):
+    """(tagged list, how often one plain evaluator over all of it enters operation u, f calls)"""
+    tagged = tag_common_subexpressions(exprs)
+    calls = Counter()
+
+    def f(a):
+        calls[a] += 1
+        return a * 2 + 1
+    m = CountingEM({"x": F(3, 2), "y": F(-2), "z": F(5, 4), "f": f})
+    for t in tagged:
+        m(t)
+    return tagged, m.entered[keyac(strip(u))], sum(calls.values()), \
+        sum(1 for k in m.entered if k[0] == "Call")
+
+
+@check("C12.preexisting")
+def c_preexisting(ctx, case):
+    """An operation u that occurs once as the direct child of a hand-placed wrapper and once
+    bare is a repeated operation by any reading; the two surrounding operations differ."""
+    u, prefix, scope = case
+    mk = lambda pre, sc: [p.Product((p.CommonSubexpression(u, pre, sc), 2)),    # noqa: E731
+                          p.Sum((G.deep_rebuild(u), p.Variable("z"), 7))]
+    ctx.case(None)
+    ctx.count("preexisting_wrapper_lists")
+    try:
+        tagged, n, ncalls, ncallops = _entries_of(mk(prefix, scope), u)
+    except (ZeroDivisionError, TypeError, ValueError, OverflowError):
+        ctx.count("sharing_skipped_fault")
+        return
+    if n > 1 or ncalls > ncallops:
+        finding = None
+        if prefix is not None or scope != p.cse_scope.EVALUATION:
+            try:        # explanation test: the same list with a plain wrapper is shared
+                _, n0, c0, o0 = _entries_of(mk(None, p.cse_scope.EVALUATION), u)
+                if n0 == 1 and c0 <= o0:
+                    finding = KF_PREWRAP
+            except Exception:  # noqa: BLE001
+                pass
+        ctx.fail("C12.preexisting", case, "evaluated-twice:pre-existing-wrapper",
+                 f"[CSE(u, {prefix!r}, {scope})*2, u + z + 7] with u = {u}: tagged "
+                 f"{[str(t) for t in tagged]}; one evaluator over both entered u {n} times "
+                 f"({ncalls} calls of f for {ncallops} call operations)", finding=finding)
+
+
 @check("C12.once")
 def c_once(ctx, case):
     """Evaluator computes each distinct wrapper's child exactly once per top-level call."""
@@ -383,6 +430,14 @@ def workload(ctx):
             ctx.run("C12.tag", (exprs, share))
             if rng.random() < 0.3:
                 ctx.run("C12.tagger", exprs[0])
+        for i in range(ctx.per_shard(ctx.pick(400, 8000))):
+            u = gen(rng, rng.randint(1, 3), [], ctx.hist)
+            if not isinstance(u, OPS) or ambiguous([u]):
+                continue
+            pre = rng.choice([None, None, "pre"])
+            sc = rng.choice([p.cse_scope.EVALUATION, p.cse_scope.EVALUATION, p.cse_scope.GLOBAL])
+            ctx.case(("prewrap", normal.typed_key(u), pre, sc), True, n=0)
+            ctx.run("C12.preexisting", (u, pre, sc))
         # evaluator once-only
         x, y, f = p.Variable("x"), p.Variable("y"), p.Variable("f")
         for i in range(ctx.per_shard(ctx.pick(400, 8000))):
